@@ -37,9 +37,21 @@ res "== clean tree + demo"; A=$(demo); res "clean: $A"
 res "== changed tree + demo"; B=$(demo); res "changed: $B"
 res "== changed tree + full suite"
 S=FAIL
-for attempt in 1 2; do
-  (cd "$WT" && go test -vet=off -count=1 -timeout 25m ./... > /tmp/seedsuite-$ID-$TAG$K.out 2>&1) && { S=PASS; break; }
-done
+(cd "$WT" && go test -vet=off -count=1 -timeout 25m ./... > /tmp/seedsuite-$ID-$TAG$K.out 2>&1) && S=PASS
+if [ $S = FAIL ]; then
+  # timing-sensitive tests (trafficshape listeners, fixed ports) fail on a loaded machine: re-run only the
+  # packages that failed, alone, up to 3 times each; the suite counts as green if every one of them passes
+  S=PASS
+  for pkg in $(grep -E "^FAIL\s+github.com" /tmp/seedsuite-$ID-$TAG$K.out | awk '{print $2}' | sort -u); do
+    ok=0
+    for attempt in 1 2 3; do
+      (cd "$WT" && go test -vet=off -count=1 -p 1 -timeout 25m "$pkg" >> /tmp/seedsuite-$ID-$TAG$K.retry 2>&1) && { ok=1; break; }
+    done
+    echo "retry $pkg: ok=$ok" >> "$OUT/verification.log"
+    [ $ok = 1 ] || S=FAIL
+  done
+  grep -qE "^FAIL\s+github.com" /tmp/seedsuite-$ID-$TAG$K.out || S=FAIL
+fi
 grep -E "^(FAIL|---)" /tmp/seedsuite-$ID-$TAG$K.out | head -5 >> "$OUT/verification.log"
 res "suite: $S"
 DET=""
